@@ -141,13 +141,18 @@ def blob_to_csv(
             column_rename[src_key] = dst_key
         csv_df.rename(mapper=column_rename, axis=1, inplace=True)
 
+        # (columns are identified by their full names, not by
+        # substrings, so that a level called, e.g., 'class_label'
+        # does not cause every one of its columns to be kept)
+        columns_to_keep = set(['cell_id'])
+        for level in taxonomy_tree.hierarchy:
+            readable_level = taxonomy_tree.level_to_name(level_label=level)
+            for suffix in ('label', 'name', 'alias', confidence_label):
+                columns_to_keep.add(f"{readable_level}_{suffix}")
+
         columns_to_drop = []
         for col in csv_df.columns:
-            if col == 'cell_id':
-                continue
-            if 'name' in col or 'label' in col or 'alias' in col:
-                continue
-            if confidence_label in col:
+            if col in columns_to_keep:
                 continue
             columns_to_drop.append(col)
 
@@ -164,6 +169,12 @@ def blob_to_df(
     Convert a JSON blob of results into a pandas dataframe
     """
     records = []
+
+    # columns holding node labels/names/aliases (tracked by their
+    # full names, so that the name of a level cannot turn a
+    # numerical column into a categorical one)
+    category_columns = set()
+
     for cell in results_blob:
         this_record = {'cell_id': cell['cell_id']}
         for level in taxonomy_tree.hierarchy:
@@ -175,12 +186,15 @@ def blob_to_df(
                         name_key='name')
             this_record[f'{readable_level}_label'] = label
             this_record[f'{readable_level}_name'] = name
+            category_columns.add(f'{readable_level}_label')
+            category_columns.add(f'{readable_level}_name')
             if level == taxonomy_tree.leaf_level:
                 alias = taxonomy_tree.label_to_name(
                             level=level,
                             label=label,
                             name_key='alias')
                 this_record[f'{readable_level}_alias'] = alias
+                category_columns.add(f'{readable_level}_alias')
 
             for element in cell[level]:
                 if element == 'assignment':
@@ -190,26 +204,20 @@ def blob_to_df(
                     for idx in range(len(value)):
                         key = f'{readable_level}_{element}_{idx}'
                         this_record[key] = value[idx]
+                        if 'assignment' in element:
+                            category_columns.add(key)
                 else:
                     key = f'{readable_level}_{element}'
                     this_record[key] = value
+                    if 'assignment' in element:
+                        category_columns.add(key)
 
         records.append(this_record)
 
     df = pd.DataFrame(records)
 
     for col in df.columns:
-        convert_to_category = False
-        if 'label' in col:
-            convert_to_category = True
-        elif 'name' in col:
-            convert_to_category = True
-        elif 'alias' in col:
-            convert_to_category = True
-        elif 'assignment' in col:
-            convert_to_category = True
-
-        if convert_to_category:
+        if col in category_columns:
             df[col] = df[col].astype('category')
 
     return df
